@@ -24,6 +24,9 @@ fn pool() -> &'static Vec<String> {
             "79228162514264337593543950334", "39614081257132168796771975168", "7922816251426433759354395033.5", "7.9228162514264337593543950335", "0.3333333333333333333333333333", "1000000000000000",
             "123456789012345678901234567", "1234567890123456789012345678", "99999999999999999999999999999", "0.9999999999999999999999999999", "281474976710656", "4294967296", "1.5", "2.25",
             "18446744073709551616", "4294967296000000000000", "1.0000000000000000000000000001", "2.0000000000000000000000000002", "2.00000000000000000000000002",
+            // coefficients around 2^63, 2^64 and i128::MAX/10^19 at scales 18..20, with dividends of 20 digits (64/128-bit
+            // fast paths of a remainder or a division)
+            "1.7500000000000000001", "1.8446744073709551615", "1.8446744073709551616", "1.7014118346046923174", "1.7014118346046923175", "9.223372036854775807", "9.223372036854775808", "35000000000000000000", "18446744073709551615", "99999999999999999999", "0.17014118346046923175", "17.014118346046923175",
         ]
         .iter()
         .map(|s| s.to_string())
